@@ -91,10 +91,43 @@ BOUNDED_LOOPS = {
 }
 
 
-# recursion that does not go through the token stream (reviewed)
-RECURSION_OK = {
-    "prepend_expresion": "it walks the expression tree that has already been parsed (the cursor is only passed along for error spans)",
-}
+def _structural_descent(F, path):
+    """recursion that does not go through the token stream: every call of the function to itself passes, for one and the
+    same parameter, a part of that parameter taken out by a pattern (`match rhs.kind { .. ArrowCall(pre, ..) .. => f(ctx, lhs, *pre)`)
+    - a walk down a tree that has already been built, finite whatever the cursor does.  Returns the reason, or None."""
+    fn = F.fns.get(path)
+    if fn is None or fn.get("body") is None:
+        return None
+    body = fn_body(fn)
+    params = [b for q in fn["params"] for b in pat_bindings(q["pat"])]
+    pidx = {b["hid"]: i for i, b in enumerate(params)}
+    bound_from = {}        # pattern binding -> parameter index whose value the enclosing match takes apart
+    for m in nodes(body, "Match"):
+        r = peel(m["scrut"])
+        while isinstance(r, dict) and r.get("k") in ("Field", "MethodCall") and (r.get("k") == "Field" or r["m"] in ("as_ref", "clone", "borrow", "deref")):
+            r = peel(r["e"] if r.get("k") == "Field" else r["recv"])
+        if isinstance(r, dict) and r.get("k") == "Path" and r.get("hid") in pidx:
+            for a in m["arms"]:
+                for b in pat_bindings(a["pat"]):
+                    bound_from[b["hid"]] = pidx[r["hid"]]
+    calls = [c for c in nodes(body, "Call") if callee(c) == path]
+    if not calls:
+        return None
+    common = None
+    for c in calls:
+        here = set()
+        for i, a in enumerate(c["args"]):
+            a = peel(a)
+            while isinstance(a, dict) and a.get("k") == "MethodCall" and a["m"] in ("clone", "as_ref", "deref", "borrow"):
+                a = peel(a["recv"])
+            if isinstance(a, dict) and a.get("k") == "Path" and bound_from.get(a.get("hid")) == i:
+                here.add(i)
+        common = here if common is None else common & here
+    if common:
+        i = sorted(common)[0]
+        return "every call of %s to itself passes a part of its own parameter `%s`, taken out by a pattern: it walks a tree that has already been parsed" % (
+            last(path), params[i]["name"])
+    return None
 
 
 def parser_progress(F, rep):
@@ -211,7 +244,7 @@ def parser_progress(F, rep):
         if key in seen_c:
             continue
         seen_c.add(key)
-        why = RECURSION_OK.get(names[0]) if len(set(names)) == 1 else None
+        why = _structural_descent(F, cyc[0][0]) if len(set(names)) == 1 else None
         ok = why is not None
         if names[0] == "parse_sep_end_by" and len(set(names)) == 1:
             # the list parser calls itself after `item` and `sep`: it consumes input iff the item callback does
@@ -1377,45 +1410,96 @@ def single_visit(F, rep, rule="RE-CHECK"):
                                 for h, pth in _pat_paths(prm.get("pat", prm) if isinstance(prm, dict) else prm):
                                     src[h] = (x["recv"], pth, True)
 
-            def root(e, depth=0):
-                """(root hid | None, selector path)"""
+            def tails(e, ch=frozenset()):
+                """[(expression, choices)] a match / if / block can evaluate to; choices = which arm of which match was taken"""
+                e = peel(e)
+                if not isinstance(e, dict):
+                    return []
+                k = e.get("k")
+                if k == "Match":
+                    return [t for i_, a_ in enumerate(e["arms"]) for t in tails(a_["body"], ch | {(id(e), i_)})]
+                if k == "If":
+                    return tails(e["t"], ch | {(id(e), 0)}) + (tails(e["e"], ch | {(id(e), 1)}) if e.get("e") is not None else [])
+                if k == "Block":
+                    return tails(e["e"], ch) if e.get("e") is not None else []
+                return [(e, ch)]
+
+            arm_of_binding = {}
+            arm_body = {}
+            for m_ in nodes(body, "Match"):
+                for i_, a_ in enumerate(m_["arms"]):
+                    arm_body[(id(m_), i_)] = a_["body"]
+                    for h_, _p in _pat_paths(a_["pat"]):
+                        arm_of_binding[h_] = (id(m_), i_)
+
+            def taken_in_arm(hid, source):
+                """`match list.last() { Some(x) => { list.pop(); .. } }`: on that arm x is no longer an element of `list`"""
+                s0 = peel(source)
+                while isinstance(s0, dict) and s0.get("k") == "MethodCall" and s0["m"] in ITER_ADAPTORS:
+                    s0 = peel(s0["recv"])
+                if not (isinstance(s0, dict) and s0.get("k") == "MethodCall" and s0["m"] in ("last", "last_mut", "first", "first_mut")):
+                    return False
+                lst = peel(s0["recv"])
+                arm = arm_body.get(arm_of_binding.get(hid))
+                if arm is None or not (lst.get("k") == "Path" and lst.get("res") == "Local"):
+                    return False
+                want = ("pop",) if s0["m"].startswith("last") else ("remove", "pop_front")
+                return any(c_["m"] in want and peel(c_["recv"]).get("hid") == lst["hid"] for c_ in nodes(arm, "MethodCall"))
+
+            def roots(e, depth=0):
+                """[(root hid, selector path, choices)] - every place the value of `e` can come from"""
                 e = peel(e)
                 if not isinstance(e, dict) or depth > 40:
-                    return None, ()
+                    return []
                 k = e.get("k")
                 if k == "Path" and e.get("res") == "Local":
+                    own = frozenset([arm_of_binding[e["hid"]]]) if e["hid"] in arm_of_binding else frozenset()
                     if e["hid"] in src:
-                        s, pth, each = src[e["hid"]]
-                        r, sel = root(s, depth + 1)
-                        # positional parts of an iterator's tuple items (enumerate / zip) select nothing inside a node; the two
-                        # halves of a split (split_last / split_first / split_at) are disjoint parts of the list
-                        if not (sel and sel[-1] == "split"):
-                            pth = tuple(x_ for x_ in pth if not x_.startswith("#"))
-                        return r, sel + (("*",) if each else ()) + pth
-                    return e["hid"], ()
+                        s_, pth, each = src[e["hid"]]
+                        out = []
+                        for t, ch in tails(s_):
+                            p2 = list(pth)
+                            # a tuple built on the spot is taken apart again by the pattern: follow the component
+                            while p2 and p2[0].startswith("#") and isinstance(t, dict) and t.get("k") == "Tup":
+                                i_ = int(p2[0][1:])
+                                if i_ >= len(t["es"]):
+                                    break
+                                t = peel(t["es"][i_])
+                                p2 = p2[1:]
+                            for r, sel, ch2 in roots(t, depth + 1):
+                                # positional parts of an iterator's tuple items (enumerate / zip) select nothing inside a node; the
+                                # two halves of a split (split_last / split_first / split_at) are disjoint parts of the list
+                                p3 = tuple(p2) if (sel and sel[-1] in ("split", "splitat")) else tuple(x_ for x_ in p2 if not x_.startswith("#"))
+                                if sel and sel[-1] == "*" and not each and taken_in_arm(e["hid"], s_):
+                                    sel = sel[:-1] + ("taken:%s" % line_of(s_),)
+                                out.append((r, sel + (("*",) if each else ()) + p3, ch | ch2 | own))
+                        return out
+                    return [(e["hid"], (), own)]
                 if k == "MethodCall":
                     if e["m"] in ITER_ADAPTORS:
-                        return root(e["recv"], depth + 1)
+                        return roots(e["recv"], depth + 1)
                     if e["m"] in ELEMENT_SELECTORS:
-                        r, sel = root(e["recv"], depth + 1)
-                        return r, sel + ("*",)
+                        return [(r, sel + ("*",), ch) for r, sel, ch in roots(e["recv"], depth + 1)]
                     if e["m"] in ("pop", "remove", "swap_remove", "pop_front", "pop_back", "split_off", "drain"):
                         # taken out of the list: not among the elements a later iteration sees
-                        r, sel = root(e["recv"], depth + 1)
-                        return r, sel + ("taken:%s" % line_of(e),)
-                    if e["m"] in ("split_last", "split_first", "split_at", "split_last_mut", "split_first_mut"):
-                        r, sel = root(e["recv"], depth + 1)
-                        return r, sel + ("split",)
-                    return None, ()
+                        return [(r, sel + ("taken:%s" % line_of(e),), ch) for r, sel, ch in roots(e["recv"], depth + 1)]
+                    if e["m"] in ("split_last", "split_first", "split_last_mut", "split_first_mut"):
+                        return [(r, sel + ("split",), ch) for r, sel, ch in roots(e["recv"], depth + 1)]
+                    if e["m"] in ("split_at", "split_at_mut"):
+                        return [(r, sel + ("splitat",), ch) for r, sel, ch in roots(e["recv"], depth + 1)]
+                    return []
+                if k == "Call" and (callee(e) or "").split("::")[-1] in ("Some", "Ok") and e["args"]:
+                    return roots(e["args"][0], depth + 1)
                 if k == "Field":
-                    r, sel = root(e["e"], depth + 1)
-                    return r, sel + (".%s" % e["name"],)
+                    return [(r, sel + (".%s" % e["name"],), ch) for r, sel, ch in roots(e["e"], depth + 1)]
                 if k == "Index":
-                    r, sel = root(e["e"], depth + 1)
-                    return r, sel + ("*",)
+                    i_ = peel(e["i"])
+                    if isinstance(i_, dict) and (i_.get("k") == "Range" or "Range" in (i_.get("ty") or "")):
+                        return roots(e["e"], depth + 1)      # a sub-slice: still "the list"
+                    return [(r, sel + ("*",), ch) for r, sel, ch in roots(e["e"], depth + 1)]
                 if k == "Try":
-                    return root(e["e"], depth + 1)
-                return None, ()
+                    return roots(e["e"], depth + 1)
+                return []
 
             calls = []
             for x, parents in walk(body):
@@ -1423,20 +1507,26 @@ def single_visit(F, rep, rule="RE-CHECK"):
                     for a in x["args"]:
                         t = (a.get("ty") or "") if isinstance(a, dict) else ""
                         if any(v in t for v in VISITOR_ARG_TYPES):
-                            r, sel = root(a)
-                            if r is not None:
-                                calls.append((x, parents, r, sel))
+                            for r, sel, ch in roots(a):
+                                calls.append((x, parents, r, sel, ch))
             if not calls:
                 continue
             nf += 1
             seen = set()
             for i in range(len(calls)):
                 for j in range(i + 1, len(calls)):
-                    a, pa, ra, sa = calls[i]
-                    b, pb, rb, sb = calls[j]
-                    if ra != rb:
+                    a, pa, ra, sa, cha = calls[i]
+                    b, pb, rb, sb, chb = calls[j]
+                    if ra != rb or a is b:
                         continue
-                    short, long_ = (sa, sb) if len(sa) <= len(sb) else (sb, sa)
+                    # values that exist only on different arms of one match never meet
+                    da, db = dict(cha), dict(chb)
+                    if any(k_ in db and db[k_] != v_ for k_, v_ in da.items()):
+                        continue
+                    if _split_disjoint(sa, sb):
+                        continue
+                    na, nb_ = _split_norm(sa), _split_norm(sb)
+                    short, long_ = (na, nb_) if len(na) <= len(nb_) else (nb_, na)
                     if long_[:len(short)] != short:
                         continue
                     if _exclusive(pa + (a,), pb + (b,)):
@@ -1454,6 +1544,30 @@ def single_visit(F, rep, rule="RE-CHECK"):
                                "/".join(sb) or ".", line_of(b).split(":")[-2]), line_of(b))
             rep.ob(rule, "%s|calls" % last(fn["_path"], 2), True, "%d visiting calls compared pairwise" % len(calls), sites=len(calls))
     rep.floor(rule, "functions that hand syntax nodes to visiting functions", nf, 15)
+
+
+def _split_disjoint(sa, sb):
+    """the two paths go into different halves of one split of the same list"""
+    for i in range(min(len(sa), len(sb)) - 1):
+        if sa[i] != sb[i]:
+            return False
+        if sa[i] in ("split", "splitat"):
+            return sa[i + 1].startswith("#") and sb[i + 1].startswith("#") and sa[i + 1] != sb[i + 1]
+    return False
+
+
+def _split_norm(sel):
+    """(split, #0) is one element of the list, (split, #1) the list without it, both halves of split_at are lists"""
+    out, i = [], 0
+    while i < len(sel):
+        if sel[i] in ("split", "splitat") and i + 1 < len(sel) and sel[i + 1].startswith("#"):
+            if sel[i] == "split" and sel[i + 1] == "#0":
+                out.append("*")
+            i += 2
+        else:
+            out.append(sel[i])
+            i += 1
+    return tuple(out)
 
 
 def _exclusive(pa, pb):
